@@ -1,5 +1,9 @@
 import sys,re
+import os
+LISTLIKE={'_CoqProject','main.rs','known_findings.txt','.gitignore','Extract.v'}
 for p in sys.argv[1:]:
+    if os.path.basename(p) not in LISTLIKE:
+        print('merge_union: NOT a list-like file, resolve by hand:', p); continue
     s=open(p).read()
     out=[];mode=None;ours=[];theirs=[]
     for line in s.splitlines(keepends=True):
